@@ -52,7 +52,7 @@ package configuration
 //@   modifies storedCfgCommitted, storedCfgApplied
 //@   ensures err != nil ==> result == nil && storedCfgCommitted == old(storedCfgCommitted) && storedCfgApplied == old(storedCfgApplied)
 //@   ensures err == nil ==> result != nil && fresh(result) && cfgSnapshotted(result)
-//@   ensures err == nil ==> (result.Values == nil || fresh(result.Values)) && (result.Status.Applied.Values == nil || fresh(result.Status.Applied.Values))
+//@   ensures err == nil ==> (result.Values == nil || fresh(result.Values)) && (result.Status.Applied.Values == nil || fresh(result.Status.Applied.Values)) && (result.Values == nil || result.Values != result.Status.Applied.Values)
 //@   ensures err == nil ==> storedCfgCommitted == result.Status.Committed.Index && storedCfgApplied == result.Status.Applied.Index
 //@   ensures err == nil ==> result.Status.Applied.Mastership.Term <= result.Status.Mastership.Term
 
